@@ -63,7 +63,7 @@ def _run_seq(spec, tier, res):
     maxdepth = 3
     seq, model, sibling = S.build_base(base)
     base_model = list(model)
-    stats = {'queries': 0, 'rewritten': 0, 'unknown': 0, 'forms': set()}
+    stats = {'queries': 0, 'rewritten': 0, 'unknown': 0, 'equiv': 0, 'forms': set()}
     seen = {}
     keep = []
 
@@ -131,6 +131,7 @@ def _run_seq(spec, tier, res):
     res.count('lookups_with_tail', stats['queries'])
     res.count('lookups_rewritten_tail', stats['rewritten'])
     res.count('lookups_unknown', stats['unknown'])
+    res.count('lookups_equivalent_spelling', stats['equiv'])
     for f in stats['forms']:
         res.distinct('distinct_outcomes', 'tailform:{}'.format(f))
 
